@@ -27,6 +27,9 @@ enum SOp {
     NextMatchBack,
     NextRejectBack,
     Rebuild,
+    /// step a SECOND live searcher on the same &Regex over another haystack
+    Next2,
+    NextBack2,
     Consumer(String),
 }
 
@@ -40,6 +43,8 @@ impl SOp {
             SOp::NextMatchBack => "next_match_back".into(),
             SOp::NextRejectBack => "next_reject_back".into(),
             SOp::Rebuild => "rebuild".into(),
+            SOp::Next2 => "next@2".into(),
+            SOp::NextBack2 => "next_back@2".into(),
             SOp::Consumer(c) => format!("std:{}", c),
         }
     }
@@ -52,6 +57,8 @@ impl SOp {
             "next_match_back" => SOp::NextMatchBack,
             "next_reject_back" => SOp::NextRejectBack,
             "rebuild" => SOp::Rebuild,
+            "next@2" => SOp::Next2,
+            "next_back@2" => SOp::NextBack2,
             _ => return s.strip_prefix("std:").map(|c| SOp::Consumer(c.to_string())),
         })
     }
@@ -67,6 +74,8 @@ struct SWorld {
     pattern: String,
     flags: String,
     hay: String,
+    /// haystack of the second live searcher (ops next@2 / next_back@2)
+    hay2: String,
     script: Vec<SOp>,
     fuel: u64,
 }
@@ -77,6 +86,7 @@ impl SWorld {
             .set("pattern", J::s(&self.pattern))
             .set("flags", J::s(&self.flags))
             .set("haystack", J::s(&self.hay))
+            .set("haystack2", J::s(&self.hay2))
             .set("fuel", J::u(self.fuel))
             .set("script", J::Arr(self.script.iter().map(|o| J::s(&o.name())).collect()))
     }
@@ -89,6 +99,7 @@ impl SWorld {
             pattern: j.get("pattern").and_then(|v| v.as_str()).ok_or("pattern")?.to_string(),
             flags: j.get("flags").and_then(|v| v.as_str()).unwrap_or("").to_string(),
             hay: j.get("haystack").and_then(|v| v.as_str()).ok_or("haystack")?.to_string(),
+            hay2: j.get("haystack2").and_then(|v| v.as_str()).unwrap_or("").to_string(),
             script,
             fuel: j.get("fuel").and_then(|v| v.as_u64()).unwrap_or(50_000),
         })
@@ -123,6 +134,9 @@ fn gen_sworld(base: u64, run: u64) -> SWorld {
     } else {
         (0..n).map(|_| alpha[wl.usize_below(alpha.len())]).collect()
     };
+    // a second haystack for a sibling searcher on the same &Regex
+    let n2 = wl.below(12);
+    let hay2: String = (0..n2).map(|_| alpha[wl.usize_below(alpha.len())]).collect();
     // script: the seeded interleaving of the two ends and of the provided methods
     let style = sc.below(10);
     let max_calls = 4 * hay.len() as u64 + 12;
@@ -154,8 +168,14 @@ fn gen_sworld(base: u64, run: u64) -> SWorld {
                     SOp::NextMatchBack
                 } else if r < 90 {
                     SOp::NextRejectBack
-                } else if r < 93 {
+                } else if r < 92 {
                     SOp::Rebuild
+                } else if r < 95 {
+                    if r % 2 == 0 {
+                        SOp::Next2
+                    } else {
+                        SOp::NextBack2
+                    }
                 } else {
                     SOp::Consumer(CONSUMERS[sc.usize_below(CONSUMERS.len())].to_string())
                 }
@@ -167,7 +187,7 @@ fn gen_sworld(base: u64, run: u64) -> SWorld {
     for _ in 0..sc.range(1, 4) {
         script.push(SOp::Consumer(CONSUMERS[sc.usize_below(CONSUMERS.len())].to_string()));
     }
-    SWorld { pattern, flags, hay, script, fuel: 50_000 }
+    SWorld { pattern, flags, hay, hay2, script, fuel: 50_000 }
 }
 
 // ------------------------------------------------------------------ execution + oracle
@@ -281,6 +301,7 @@ struct SExec {
     steps_bwd: usize,
     consumers: usize,
     rebuilds: usize,
+    sibling_steps: usize,
     sim_steps: u64,
     outcome_hash: u64,
 }
@@ -554,6 +575,7 @@ fn exec_sworld(w: &SWorld) -> SExec {
         steps_bwd: 0,
         consumers: 0,
         rebuilds: 0,
+        sibling_steps: 0,
         sim_steps: 0,
         outcome_hash: 0,
     };
@@ -594,8 +616,23 @@ fn exec_sworld(w: &SWorld) -> SExec {
         let mut searcher = (&re).into_searcher(h);
         let mut fw = DirState::new(true, len);
         let mut bw = DirState::new(false, len);
+        // sibling searcher: its own haystack, its own reference
+        let h2: &str = &w.hay2;
+        let mut f2: Vec<(usize, usize)> = Vec::new();
+        let uses2 = w.script.iter().any(|o| matches!(o, SOp::Next2 | SOp::NextBack2));
+        if uses2 {
+            if let Err(fuel) = armed(ctx, &mut || {
+                f2 = re.find_iter(h2).map(|m| (m.start(), m.end())).collect();
+            }) {
+                return Err(fuel);
+            }
+        }
+        let mut searcher2 = (&re).into_searcher(h2);
+        let mut fw2 = DirState::new(true, h2.len());
+        let mut bw2 = DirState::new(false, h2.len());
         for (i, op) in w.script.iter().enumerate() {
             let mut obs: Option<(bool, Obs)> = None;
+            let mut obs2: Option<(bool, Obs)> = None;
             let mut cons: Option<Option<(String, String)>> = None;
             let res = armed(ctx, &mut || match op {
                 SOp::Next => obs = Some((true, step_to_obs(searcher.next()))),
@@ -625,6 +662,8 @@ fn exec_sworld(w: &SWorld) -> SExec {
                     }))
                 }
                 SOp::Rebuild => {}
+                SOp::Next2 => obs2 = Some((true, step_to_obs(searcher2.next()))),
+                SOp::NextBack2 => obs2 = Some((false, step_to_obs(searcher2.next_back()))),
                 SOp::Consumer(c) => cons = Some(run_consumer(c, &re, h, &f)),
             });
             match res {
@@ -652,6 +691,14 @@ fn exec_sworld(w: &SWorld) -> SExec {
                     ex.viols.push(SViol { clause, detail, op: i });
                 }
                 continue;
+            }
+            if let Some((forward, o)) = obs2 {
+                oh.str(&format!("2:{:?}", o));
+                ex.sibling_steps += 1;
+                let d = if forward { &mut fw2 } else { &mut bw2 };
+                if let Some((clause, detail)) = d.observe(h2, o) {
+                    ex.viols.push(SViol { clause: format!("{}@sibling", clause), detail, op: i });
+                }
             }
             if let Some((forward, o)) = obs {
                 oh.str(&format!("{:?}", o));
@@ -754,6 +801,41 @@ fn exec_sworld(w: &SWorld) -> SExec {
                 }
             }
         }
+        if uses2 && ex.viols.is_empty() {
+            let bound2 = 4 * h2.len() + 12;
+            let res = armed(ctx, &mut || {
+                let mut n = 0;
+                while !fw2.done && n < bound2 {
+                    let o = step_to_obs(searcher2.next());
+                    if let Some((clause, detail)) = fw2.observe(h2, o) {
+                        ex.viols.push(SViol { clause: format!("{}@sibling", clause), detail, op: w.script.len() });
+                        return;
+                    }
+                    n += 1;
+                }
+                n = 0;
+                while !bw2.done && n < bound2 {
+                    let o = step_to_obs(searcher2.next_back());
+                    if let Some((clause, detail)) = bw2.observe(h2, o) {
+                        ex.viols.push(SViol { clause: format!("{}@sibling", clause), detail, op: w.script.len() });
+                        return;
+                    }
+                    n += 1;
+                }
+            });
+            if let Err(true) = res {
+                return Err(true);
+            }
+            if ex.viols.is_empty() {
+                let w2 = SWorld { hay: w.hay2.clone(), ..w.clone() };
+                let mut v2 = Vec::new();
+                finish_searcher(&w2, &f2, &fw2, &bw2, true, &mut v2, w.script.len());
+                for mut v in v2 {
+                    v.clause = format!("{}@sibling", v.clause);
+                    ex.viols.push(v);
+                }
+            }
+        }
         ex.steps_fwd += fw.steps;
         ex.steps_bwd += bw.steps;
         Ok(())
@@ -832,6 +914,7 @@ fn cmd_worker(args: &[String]) -> i32 {
         st.add("simulated_steps", e.sim_steps);
         st.add("faults.fuel", e.inconclusive as u64);
         st.add("faults.rebuild", e.rebuilds as u64);
+        st.add("faults.sibling_searcher_steps", e.sibling_steps as u64);
         st.add("compile_errors", e.compile_err as u64);
         st.add("ops.forward_steps", e.steps_fwd as u64);
         st.add("ops.backward_steps", e.steps_bwd as u64);
